@@ -67,7 +67,15 @@ func genC12(t *rapid.T) c12Case {
 	}
 	c.Depth = pick(t, "depth", 1, 2, 3, 4, 8, 16, 20, 30, maxDepth, rapid.IntRange(1, maxDepth).Draw(t, "depth_any"))
 	c.Batch = rapid.IntRange(1, 8).Draw(t, "batch")
+	if rapid.IntRange(0, 3).Draw(t, "large") == 0 {
+		// larger products of depth and batch (size-dependent compile options would show only here)
+		c.Depth = pick(t, "ldepth", 16, 20, 26, 30, maxDepth)
+		c.Batch = pick(t, "lbatch", 10, 13, 16)
+	}
 	c.Paths = []string{"build"}
+	if rapid.IntRange(0, 2).Draw(t, "with_import") > 0 {
+		c.Paths = append(c.Paths, "import-foreign")
+	}
 	n := rapid.IntRange(1, 3).Draw(t, "npaths")
 	for i := 0; i < n; i++ {
 		choices := []string{"build-again", "build-again", "concurrent"}
@@ -186,6 +194,38 @@ func runC12(c c12Case) Result {
 			if dg, n, err2 = csDigest(cs); err2 != nil {
 				return bad(class, "harness:serialise", "%v", err2)
 			}
+		case "import-foreign":
+			// the key-import path at ANY dimensions: ImportXSetup compiles the circuit itself and pairs it with whatever
+			// key files it is given, so key files of a small cached system are enough to obtain its constraint system
+			pkp, vkp, err := foreignKeys(c.Mode)
+			if err != nil {
+				return bad(class, "harness:foreign-keys", "%v", err)
+			}
+			var imp *prover.ProvingSystem
+			func() {
+				defer func() {
+					if r := recover(); r != nil {
+						err = fmt.Errorf("panic: %v", r)
+					}
+				}()
+				if c.Mode == "insertion" {
+					imp, err = prover.ImportInsertionSetup(uint32(c.Depth), uint32(c.Batch), pkp, vkp)
+				} else {
+					imp, err = prover.ImportDeletionSetup(uint32(c.Depth), uint32(c.Batch), pkp, vkp)
+				}
+			}()
+			if err != nil {
+				// an import that checks the keys against the circuit may refuse foreign keys: nothing to compare then
+				tags = append(tags, "import-foreign:refused")
+				continue
+			}
+			if int(imp.TreeDepth) != c.Depth || int(imp.BatchSize) != c.Batch {
+				return bad(class, "ImportSetup:dimensions", "%s imported as depth %d batch %d", triple, imp.TreeDepth, imp.BatchSize)
+			}
+			var err2 error
+			if dg, n, err2 = csDigest(imp.ConstraintSystem); err2 != nil {
+				return bad(class, "harness:serialise", "%v", err2)
+			}
 		case "cli-r1cs", "cli-setup":
 			dir, err := os.MkdirTemp(os.Getenv("VERIF_WORK"), "c12-")
 			if err != nil {
@@ -250,6 +290,37 @@ func runC12(c c12Case) Result {
 	return ok(class, len(kinds) >= 2 || len(c.Paths) >= 2).tag(tags...)
 }
 
+var (
+	foreignMu   sync.Mutex
+	foreignPath = map[string][2]string{}
+)
+
+// foreignKeys writes (once per process) the proving and verifying key of a depth 1 / batch 1 system of the mode.
+func foreignKeys(mode string) (string, string, error) {
+	foreignMu.Lock()
+	defer foreignMu.Unlock()
+	if p, okk := foreignPath[mode]; okk {
+		return p[0], p[1], nil
+	}
+	ps, err := getSystem(mode, 1, 1)
+	if err != nil {
+		return "", "", err
+	}
+	dir, err := os.MkdirTemp(os.Getenv("VERIF_WORK"), "c12fk-")
+	if err != nil {
+		return "", "", err
+	}
+	pkp, vkp := filepath.Join(dir, "pk"), filepath.Join(dir, "vk")
+	if err := writeKey(pkp, ps.ProvingKey.WriteTo); err != nil {
+		return "", "", err
+	}
+	if err := writeKey(vkp, ps.VerifyingKey.WriteTo); err != nil {
+		return "", "", err
+	}
+	foreignPath[mode] = [2]string{pkp, vkp}
+	return pkp, vkp, nil
+}
+
 func writeKey(path string, w func(w io.Writer) (int64, error)) error {
 	f, err := os.Create(path)
 	if err != nil {
@@ -303,6 +374,11 @@ func init() {
 }
 
 func TestC12_Paths(t *testing.T) {
+	for _, m := range []string{"insertion", "deletion"} { // warm before rapid starts timing iterations
+		if _, _, err := foreignKeys(m); err != nil {
+			t.Fatalf("harness: %v", err)
+		}
+	}
 	RunRapid(t, Check[c12Case]{Prop: "C12", Test: "TestC12_Paths", Gen: genC12, Run: runC12})
 }
 
